@@ -80,8 +80,10 @@ prop("C20", "other",
      bounded=[B3.c20_unsupported, B3.c20_cli_cycles])
 
 prop("C11", "other",
-     'Deductive: get_children yields every element at a direct keyword position (items, additionalItems, contains, additionalProperties, propertyNames, '
-     'element) -- loop invariant in membership form, recursion by its own contract; _get_path verified per constant path (the three `*` paths assumed). Not '
+     'Deductive: get_children yields every element at every keyword position the orderer looks at (items and tuple items, additionalItems, contains, the elements '
+     'of properties, patternProperties and dependencies values, additionalProperties, propertyNames, composition members, `not`) -- loop invariant in membership '
+     'form, recursion by its own contract, under a stated shape invariant of the element objects (the dict-valued keyword attributes are dicts / property dicts); '
+     '_get_path verified for all ten constant paths plus the inner `*` and `*.element` segments (itertools.chain.from_iterable modelled as list concatenation, a listed library fact). Not '
      "deductive: orderer's main loop (while True over a dict being edited, ended by StopIteration). Bounded: named dependency graphs x 20 keyword positions, "
      'call histories; thorough: every digraph on <= 3 classes x every position and every loop-free digraph on 4 classes x 4 positions.',
      bounded=[B3.c11_order])
